@@ -16,7 +16,7 @@ Inductive fnode :=
 | FNode (mws : list (Z * Z)) (redirs : list (bytes * bytes)) (subs : list (bytes * fnode)) (pk pid : Z).
 
 Definition flag_accepts (pass : bool) (f : Z) : bool :=
-  if f =? 0 then false else if f =? 2 then pass else true.
+  if (f =? 0) || (f =? 3) then false else if f =? 2 then pass else true.      (* 3: the middleware throws: it has not accepted *)
 
 Fixpoint resolve (pass : bool) (n : fnode) : node :=
   match n with
